@@ -2,6 +2,7 @@ package c14
 
 import (
 	"bytes"
+	"errors"
 	"fmt"
 	"math"
 	"math/big"
@@ -128,8 +129,11 @@ func floatLiteral() *rapid.Generator[string] {
 		if rapid.Bool().Draw(t, "hasexp") {
 			sb.WriteString(rapid.SampledFrom([]string{"e", "E"}).Draw(t, "e"))
 			sb.WriteString(rapid.SampledFrom([]string{"", "+", "-"}).Draw(t, "esign"))
-			if rapid.IntRange(0, 9).Draw(t, "ebig") == 0 {
+			if k := rapid.IntRange(0, 19).Draw(t, "ebig"); k == 0 {
 				sb.WriteString(digits(1, 18).Draw(t, "exp"))
+			} else if k == 1 {
+				// next to the limits of int64
+				sb.WriteString(rapid.SampledFrom([]string{"9223372036854775807", "9223372036854775806", "9223372036854775808", "9223372036854775000", "4611686018427387904", "09223372036854775807", "18446744073709551616"}).Draw(t, "explimit"))
 			} else {
 				sb.WriteString(stdstrconv.Itoa(rapid.IntRange(0, 400).Draw(t, "exp")))
 			}
@@ -299,12 +303,30 @@ func checkParseFloat(t *rapid.T, s string) (string, bool) {
 	}
 	// the exponent is read with ParseInt: exponents that overflow int64 are outside the documented syntax
 	if i := strings.IndexAny(m, "eE"); i >= 0 {
-		e := strings.TrimLeft(m[i+1:], "+-")
-		if len(strings.TrimLeft(e, "0")) > 18 {
+		e, _ := new(big.Int).SetString(strings.TrimPrefix(m[i+1:], "+"), 10)
+		if !e.IsInt64() {
 			if n < 0 || n > len(s) {
 				t.Fatalf("ParseFloat(%q): n=%d out of range", s, n)
 			}
 			return "hugeexp", false
+		}
+		if e.CmpAbs(big.NewInt(100000)) > 0 {
+			// an exponent that fits int64 but is far outside the range of float64: zero or infinity, whatever the
+			// mantissa (of at most a few thousand digits) is
+			if n != len(m) {
+				t.Fatalf("ParseFloat(%q) consumed %d bytes, the longest numeric prefix %q has %d", s, n, m, len(m))
+			}
+			zeroMant := strings.Trim(m[:i], "+-0.") == ""
+			neg := strings.HasPrefix(m, "-")
+			switch {
+			case zeroMant || e.Sign() < 0:
+				if got != 0 {
+					t.Fatalf("ParseFloat(%q) = %v, want 0", s, got)
+				}
+			case !math.IsInf(got, 1) && !neg || !math.IsInf(got, -1) && neg:
+				t.Fatalf("ParseFloat(%q) = %v, want the infinity", s, got)
+			}
+			return "int64exp", true
 		}
 	}
 	want, _ := stdstrconv.ParseFloat(m, 64)
@@ -370,7 +392,7 @@ func TestProp_ParseFloat(t *testing.T) {
 }
 
 func TestProp_ParseDecimal(t *testing.T) {
-	ev.Describe("ParseDecimal", "inputs that begin with -?digits[.digits] containing a digit, then junk; oracle: n == length of that prefix, value within 1e-14 relative of strconv.ParseFloat of it; non-trivial = has a dot or > 17 digits or junk")
+	ev.Describe("ParseDecimal", "inputs that begin with -?digits[.digits] containing a digit (an eighth of them with 0-400 zeros in front of or behind the dot: numbers near the limits of float64), then junk; oracle: n == length of that prefix, value within 1e-14 relative of strconv.ParseFloat of it; non-trivial = has a dot or > 17 digits or junk")
 	ev.Check(t, 20000, func(t *rapid.T) {
 		var sb strings.Builder
 		sb.WriteString(rapid.SampledFrom([]string{"", "-"}).Draw(t, "sign"))
@@ -379,6 +401,15 @@ func TestProp_ParseDecimal(t *testing.T) {
 		b := ""
 		if hasDot {
 			b = digits(0, 30).Draw(t, "frac")
+		}
+		if rapid.IntRange(0, 7).Draw(t, "long") == 0 {
+			// numbers near the limits of float64 written without an exponent: long runs of zeros behind or in front of the dot
+			k := rapid.OneOf(rapid.IntRange(280, 345), rapid.IntRange(0, 400)).Draw(t, "zeros")
+			if rapid.Bool().Draw(t, "tiny") {
+				a, hasDot, b = rapid.SampledFrom([]string{"", "0", "00"}).Draw(t, "lead"), true, strings.Repeat("0", k)+digits(1, 20).Draw(t, "sig")
+			} else {
+				a += strings.Repeat("0", k)
+			}
 		}
 		if a == "" && b == "" {
 			a = "0"
@@ -406,10 +437,20 @@ func TestProp_ParseDecimal(t *testing.T) {
 			lit = strings.Replace(lit, ".", "0.", 1)
 		}
 		want, err := stdstrconv.ParseFloat(lit, 64)
-		if err != nil {
+		if err != nil && !errors.Is(err, stdstrconv.ErrRange) { // (out of range: want is the infinity)
 			t.Fatalf("reference cannot parse %q: %v", lit, err)
 		}
-		if !relClose(got, want, 1e-14) {
+		if want != 0 && math.Abs(want) < 2.3e-308 || want == 0 && got != 0 && math.Abs(got) <= 5e-324 {
+			// subnormal results and the underflow edge: as for ParseFloat, two subnormal ulps
+			if math.Abs(got-want) > 1e-323 {
+				t.Fatalf("ParseDecimal(%q) = %v want %v (subnormal)", s, got, want)
+			}
+		} else if math.IsInf(want, 0) && math.Abs(got) == math.MaxFloat64 && math.Signbit(got) == math.Signbit(want) {
+			// the overflow edge: within 1e-14 of the largest float (see checkParseFloat)
+			if bf, _, err := new(big.Float).SetPrec(8192).Parse(lit, 10); err != nil || new(big.Float).Abs(bf).Cmp(new(big.Float).SetPrec(8192).Mul(big.NewFloat(math.MaxFloat64), big.NewFloat(1+1e-14))) > 0 {
+				t.Fatalf("ParseDecimal(%q) = %v want %v", s, got, want)
+			}
+		} else if !relClose(got, want, 1e-14) {
 			t.Fatalf("ParseDecimal(%q) = %v want %v", s, got, want)
 		}
 		ev.Case("ParseDecimal", s, hasDot || len(a) > 17 || junk != "", fmt.Sprintf("dot=%v", hasDot))
@@ -512,20 +553,21 @@ func checkAppendFloat(t fataler, f float64, prec int, got string) {
 	// guard the floor against log10 rounding at exact powers of ten
 	slack := new(big.Float).SetPrec(2000).Mul(A, big.NewFloat(4*eps))
 	slack.Add(slack, big.NewFloat(1e-323)) // two subnormal ulps: subnormal arguments have no relative slack
-	// the decimal exponent is that of the argument taken with its float slack: a float64 that lies a fraction of an ulp
-	// below a power of ten (1e35 is 9.9999999999999996e34) counts as that power of ten
-	Aup := new(big.Float).SetPrec(2000).Add(A, slack)
-	if pow10(e10+1).Cmp(Aup) <= 0 {
+	// the decimal exponent is the exact one of the argument
+	if pow10(e10+1).Cmp(A) <= 0 {
 		e10++
-	} else if pow10(e10).Cmp(Aup) > 0 {
+	} else if pow10(e10).Cmp(A) > 0 {
 		e10--
 	}
 	L := new(big.Float).SetPrec(2000).Abs(lit)
 	if L.Cmp(new(big.Float).SetPrec(2000).Add(A, slack)) > 0 {
 		t.Fatalf("AppendFloat(%v,%d) = %q: magnitude exceeds the argument (truncation expected)", f, prec, got)
 	}
+	// a literal within the float slack of the argument is the argument (a float64 a fraction of an ulp below a power of
+	// ten, 1e35 is 9.9999999999999996e34, may be written as that power of ten); otherwise it is the argument truncated
+	// to p+1 significant digits
 	tol := new(big.Float).SetPrec(2000).Add(pow10(e10-p), slack)
-	if d := new(big.Float).SetPrec(2000).Sub(A, L); d.Cmp(tol) >= 0 {
+	if d := new(big.Float).SetPrec(2000).Sub(A, L); d.Cmp(slack) > 0 && d.Cmp(tol) >= 0 {
 		t.Fatalf("AppendFloat(%v,%d) = %q: off by %s, allowed < %s (%d significant digits)", f, prec, got, d.Text('g', 6), tol.Text('g', 6), p+1)
 	}
 }
@@ -540,7 +582,7 @@ func abs(i int) int {
 // ---------- AppendDecimal
 
 func TestProp_AppendDecimal(t *testing.T) {
-	ev.Describe("AppendDecimal", "finite float64 (half of them |f| <= 1e6 incl. k/10^d and exact binary ties) x dec -1..18; oracle (math/big, exact): output matches -?d+(.d*[1-9])? with at most dec decimals, no -0, correct sign, |literal - f| <= 0.5*10^-dec + 2^-51|f|, exact ties round away from zero; from |f| >= 9e18 on any well-formed literal within that bound; NaN/Inf append nothing; prefix preserved; non-trivial = f != 0")
+	ev.Describe("AppendDecimal", "finite float64 (half of them |f| <= 1e6 incl. k/10^d and exact binary ties) x dec -1..18; oracle (math/big, exact): output matches -?d+(.d*[1-9])? with at most dec decimals, no -0, correct sign, |literal - f| <= 0.5*10^-dec + 2^-52|f| (no second term when dec is 0), exact ties round away from zero; from |f| >= 9e18 on any well-formed literal within that bound; NaN/Inf append nothing; prefix preserved; non-trivial = f != 0")
 	ev.Check(t, 40000, func(t *rapid.T) {
 		var f float64
 		if rapid.Bool().Draw(t, "small") {
@@ -615,8 +657,17 @@ func checkAppendDecimal(t fataler, f float64, dec int, got string) string {
 		t.Fatalf("AppendDecimal(%v,%d) = %q: wrong sign", f, dec, got)
 	}
 	tol := new(big.Float).SetPrec(2000).Quo(bf(0.5), p10)
-	noise := new(big.Float).SetPrec(2000).Mul(new(big.Float).Abs(F), bf(math.Ldexp(1, -51)))
-	tol.Add(tol, noise)
+	// the scaling f*10^d rounds once (at most half an ulp of the scaled number, 2^-53 relative; 2^-52 allowed); without
+	// scaling (d == 0) nothing is rounded before the rounding that is asked for
+	// (from 9e18 on the number is written by AppendFloat with 18 digits: 2^-51)
+	if big9e18 := new(big.Float).Abs(S).Cmp(bf(9e18)) >= 0; d > 0 || big9e18 {
+		e := -52
+		if big9e18 {
+			e = -51
+		}
+		noise := new(big.Float).SetPrec(2000).Mul(new(big.Float).Abs(F), bf(math.Ldexp(1, e)))
+		tol.Add(tol, noise)
+	}
 	diff := new(big.Float).SetPrec(2000).Sub(L, F)
 	if diff.Abs(diff).Cmp(tol) > 0 {
 		t.Fatalf("AppendDecimal(%v,%d) = %q: differs from the argument by %s, allowed %s", f, dec, got, diff.Text('g', 6), tol.Text('g', 6))
